@@ -849,3 +849,15 @@ def contracts():
     for c in extra:
         c.prop = PROP
     return _c01_base2() + extra
+
+
+# the Parameter a class-level assignment goes through: the nearest class in the MRO that declares one
+# (verified for C13)
+_c01_base_gpd = contracts
+
+
+def contracts():
+    from contracts import c13 as _c13
+    c = _c13.get_param_descriptor_contract()
+    c.prop = "C01"
+    return _c01_base_gpd() + [c]
